@@ -34,6 +34,7 @@ class World:
 
     def slept(self, env: int, d: float) -> None:
         self.sleeps.append((env, self.sched.now, float(d)))
+        self.ctx.fault("worker_slow" if d < 0.3 else "worker_stall")
 
     def fired(self, key, f) -> None:
         self.fired_list.append((key, f))
